@@ -1049,6 +1049,18 @@ func (e *Engine) CheckAllocator(what string) {
 	for _, w := range s.WalMapping {
 		used(w, "an overwrite page")
 	}
+	// every page of the meta area is accounted for: free, an overwrite page, a mapping page or a free-list page
+	count := func(l []txfile.VerifRegion) (n uint64) {
+		for _, r := range l {
+			n += uint64(r.Count)
+		}
+		return n
+	}
+	inUse := uint64(len(s.WalMapping)) + count(s.WalMetaPages) + count(s.FreelistPages)
+	if uint64(s.MetaTotal) != count(s.MetaFree)+inUse {
+		e.fail("meta-area-accounting: %s: meta area of %d pages, but %d free + %d overwrite pages + %d mapping pages + %d free-list pages = %d", what,
+			s.MetaTotal, count(s.MetaFree), len(s.WalMapping), count(s.WalMetaPages), count(s.FreelistPages), count(s.MetaFree)+inUse)
+	}
 }
 
 func (e *Engine) checkReader(r *reader, what string) {
